@@ -59,6 +59,17 @@ func GenKeys(t *rapid.T, min, max int, exotic bool) []string {
 	return out
 }
 
+// GenBinKeys draws 0-2 keys that are not valid UTF-8 (hex encoded, for Case.KeysHex).
+func GenBinKeys(t *rapid.T) []string {
+	var out []string
+	if rapid.IntRange(0, 3).Draw(t, "binKeys") == 0 {
+		for n := rapid.IntRange(1, 2).Draw(t, "nBinKeys"); n > 0; n-- {
+			out = append(out, rapid.SampledFrom([]string{"ff", "61ff62", "c328", "fffe00", "e28228", "6b00ff"}).Draw(t, "binKey"))
+		}
+	}
+	return out
+}
+
 // GenVia draws the write path and its splitting.
 // CopyPiece added to a create split size marks a piece that is written with io.Copy.
 const CopyPiece = 1 << 24
